@@ -329,8 +329,8 @@ func nilEdgesOf(fn *ssa.Function, w *ssa.Call) [][2]*ssa.BasicBlock {
 		}
 		c, pol := core.StripNot(ifi.Cond, true)
 		x, neq, ok := errCmpNil(c)
-		if !ok {
-			continue
+		if !ok || !isErr(x.Type()) {
+			continue // (a nil test of another result of the same call, `resp != nil`, says nothing about its error)
 		}
 		match := false
 		for _, oc := range originCalls(x) {
